@@ -13,6 +13,7 @@ import (
 	"time"
 
 	"verifsim/harness"
+	_ "verifsim/props/c01"
 	_ "verifsim/props/c02"
 	_ "verifsim/props/c09"
 	_ "verifsim/props/c12"
